@@ -165,6 +165,8 @@ def _run_shard(shard):
     check, tier, seed = _G["check"], _G["tier"], _G["seed"]
     ctx = Ctx()
     t0 = time.time()
+    before = list(_G.setdefault("done", []))
+    _G["done"].append(shard)
     try:
         import numpy
 
@@ -181,6 +183,7 @@ def _run_shard(shard):
         return {"error": "shard %r: %s" % (shard, traceback.format_exc())}
     return {
         "shard": shard,
+        "before": before,
         "evaluations": ctx.evaluations,
         "traces": ctx.traces,
         "states": ctx.states,
@@ -344,9 +347,18 @@ def replay_history(check, pid, path, body):
 
     h = body["history"]
     want = body["clause"].split(":", 1)[1]
+    check.selfcheck()  # the workers are forked after the self-check has run
     shard = tup(h["shard"]) if isinstance(h["shard"], list) else h["shard"]
     ctx = Ctx()
     hit = False
+    # the shards the same worker process had run before this one, in full
+    for sh in h.get("before", []):
+        sh = tup(sh) if isinstance(sh, list) else sh
+        for case in check.cases(h["tier"], sh):
+            numpy.random.seed(h.get("seed", 0))
+            ctx._case = case
+            check.run_case(case, ctx)
+    ctx = Ctx()
     for index, case in enumerate(check.cases(h["tier"], shard)):
         numpy.random.seed(h.get("seed", 0))
         ctx._case = case
@@ -391,6 +403,8 @@ def main(pid, tier, seed):
     }
     errors = []
     nproc = min(NPROC, max(1, len(shards)))
+    # A worker process runs several shards one after the other; each result names the shards its worker had done
+    # before, so that a history-dependent failure can be replayed with exactly the calls that preceded it.
     with multiprocessing.get_context("fork").Pool(
         nproc, initializer=_init_worker, initargs=(pid, tier, seed)
     ) as pool:
@@ -405,6 +419,8 @@ def main(pid, tier, seed):
             agg["outcomes"].update(res["outcomes"])
             agg["nontrivial"] |= res["nontrivial"]
             agg["failures"].extend(res["failures"])
+            if res["failures"]:
+                agg.setdefault("before", {})[canon(res["shard"])] = res["before"]
             agg["fail_counts"].update(res["fail_counts"])
             agg["capped"] = agg.get("capped", False) or res.get("capped", False)
             agg["extra"].update(res["extra"])
@@ -475,13 +491,15 @@ def main(pid, tier, seed):
                 continue
             history_checked += 1
             path = write_replay(check, "history-dependent:" + clause, case, detail,
-                                history={"tier": tier, "shard": jsonable(origin_shard), "upto": origin_index, "seed": seed})
+                                history={"tier": tier, "shard": jsonable(origin_shard), "upto": origin_index, "seed": seed,
+                                         "before": jsonable(agg.get("before", {}).get(canon(origin_shard), []))})
             import subprocess
             rc = subprocess.run([sys.executable, os.path.join(VERIF, "run.py"), pid, "--replay", path],
                                 capture_output=True, text=True, env=dict(os.environ, VERIF_NPROC="1")).returncode
             if rc == 1:
                 violations.append(("history-dependent:" + clause, case, path,
-                                   "fails only after the %d preceding cases of its shard (state left behind by earlier calls): %s" % (origin_index, detail)))
+                                   "fails only after the %d preceding cases of its shard%s (state left behind by earlier calls): %s"
+                                   % (origin_index, " and the %d shards its worker ran before" % len(agg.get("before", {}).get(canon(origin_shard), [])), detail)))
                 seen_ident[("history-dependent:" + clause, canon(check.show(case)))] = True
                 continue
             print("INTERNAL failure did not reproduce, alone or after its shard prefix: %s %s" % (clause, canon(check.show(case))[:300]))
